@@ -5,6 +5,7 @@
     matrices (X(R) -> U^dagger X(R) U, any cartesian rank): same invariance.
 (3) spin_block2interlace is a relabelling too, and block2interlace followed by interlace2block restores the system.
 """
+import copy
 import os
 import shutil
 import sys
@@ -45,6 +46,11 @@ def case(ctx, rng, idx, state):
     pos = rng.uniform(-0.5, 1.5, (ng, 3))
     cred = pos[labels]
     system = gen_systems.herm_system(rng, num_wann=nw, radius=rng.uniform(1.0, 2.0), keys=keys, centers=cred)
+    # the state of the system before the relabelling depends on how the user got there (copy, do_ws_dist, reload from disk, ...)
+    os.makedirs(env.WORK, exist_ok=True)
+    system, hist = gen_systems.history_variant(rng, system, which=gen_systems.HISTORIES[idx % len(gen_systems.HISTORIES)], workdir=env.WORK)
+    ctx.count(f"history_{hist}")
+    ctx.count("explicit_right_shifts_cases", int(bool(system.rvec.has_shifts_right)))
     N = [int(x) for x in rng.integers(2, 4, size=3)]
     div = [int(rng.choice([d for d in range(1, n + 1) if n % d == 0])) for n in N]
     fft = [n // d for n, d in zip(N, div)]
@@ -91,10 +97,10 @@ def case(ctx, rng, idx, state):
 
     try:
         r0, e0 = observe(system)
-        base = dict(num_wann=nw, keys=keys, centre_groups=labels, N=N, NKdiv=div, NKFFT=fft, calculators=sorted(calcs))
+        base = dict(history=hist, num_wann=nw, keys=keys, centre_groups=labels, N=N, NKdiv=div, NKFFT=fft, calculators=sorted(calcs))
         # (1) permutation (incl. ones that separate the co-centred groups)
         perm = rng.permutation(nw)
-        s1 = gen_systems.copy_system(system)
+        s1 = copy.deepcopy(system)   # keeps the history-dependent internal state (a rebuilt system would not)
         s1.reorder(perm)
         r1, e1 = observe(s1)
         compare("reorder", r0, e0, r1, e1, dict(base, perm=perm))
@@ -106,6 +112,8 @@ def case(ctx, rng, idx, state):
         ctx.close("reorder:centres_not_permuted", s1.wannier_centers_cart, system.wannier_centers_cart[perm], rtol=1e-14, scale=1.0, what="centres",
                   witness=dict(base, perm=perm))
         ctx.close("reorder:rvec_shifts_not_permuted", s1.rvec.shifts_left_red, system.wannier_centers_red[perm], rtol=1e-12, scale=1.0, what="shifts",
+                  witness=dict(base, perm=perm))
+        ctx.close("reorder:rvec_right_shifts_not_permuted", s1.rvec.shifts_right_red, system.wannier_centers_red[perm], rtol=1e-12, scale=1.0, what="right shifts",
                   witness=dict(base, perm=perm))
         # (2) unitary rotation inside the groups of coinciding centres
         U = np.zeros((nw, nw), dtype=complex)
@@ -125,7 +133,7 @@ def case(ctx, rng, idx, state):
         ctx.count("groups_really_rotated", rotated)
         # (3) spin_block2interlace: a relabelling; and its inverse restores the system
         if nw % 2 == 0:
-            s3 = gen_systems.copy_system(system)
+            s3 = copy.deepcopy(system)
             s3.spin_block2interlace()
             r3, e3 = observe(s3)
             compare("spin_block2interlace", r0, e0, r3, e3, base)
@@ -138,7 +146,7 @@ def case(ctx, rng, idx, state):
             ctx.count("block2interlace_cases")
     finally:
         shutil.rmtree(tmp, ignore_errors=True)
-    ctx.nontrivial((nw, keys, tuple(labels.tolist()), tuple(N), tuple(sorted(calcs)), tuple(perm.tolist())))
+    ctx.nontrivial((hist, nw, keys, tuple(labels.tolist()), tuple(N), tuple(sorted(calcs)), tuple(perm.tolist())))
     ctx.sample(dict(base, perm=perm, rotated_groups=rotated))
 
 
@@ -146,11 +154,11 @@ if __name__ == "__main__":
     harness.main(
         PROP, "exploration", case, setup_fn=setup,
         tiers=dict(quick=dict(cases=24, shards=8, time=200), thorough=dict(cases=500, shards=16, time=1200)),
-        rule="random Hermitian models with 2-6 WFs in 1-3 co-centred groups and any subset of Ham/AA/SS/BB/CC; random permutations (incl. group-"
+        rule="system brought into one of 5 API histories first (as built / rvec.copy() / do_ws_dist on a random mesh / npz round trip / both); random Hermitian models with 2-6 WFs in 1-3 co-centred groups and any subset of Ham/AA/SS/BB/CC; random permutations (incl. group-"
              "separating ones), Haar-random unitaries inside each co-centred group (random phases on singletons), spin block<->interlace; 2-4 integrating "
              "calculators from a pool of 14 + Morb, a grid tabulator (energy, Berry curvature, velocity, orbital moment) and evaluate_k at 2 random k; "
              "distinct by (model, grouping, permutation, calculators)",
         assumptions=["rotation applied by the harness to every real-space matrix with einsum", "tie guards: bands >= 2e-3 apart on the grid and at the probe "
                      "points (band-resolved quantities), energies 1e-7 away from Fermi-bin edges"],
-        required_counters=("reorder_cases", "rotation_cases", "groups_really_rotated", "block2interlace_cases"),
+        required_counters=("history_ws_dist", "history_rvec_copy", "history_npz_roundtrip", "explicit_right_shifts_cases", "reorder_cases", "rotation_cases", "groups_really_rotated", "block2interlace_cases"),
     )
